@@ -140,6 +140,26 @@ class Ctx:
     def fn1(self, regex):
         return self.F.one_fn(regex)
 
+    def fn_or_host(self, regex, field, ops, scope):
+        """the function named by `regex`; when the tree has no such function any more (its body was merged into its
+        caller), the function of the reference tree that now *hosts* its characteristic step: the only function matching
+        `scope` in whose own code (helpers new to the tree included) an atomic `ops` on `field` is found"""
+        m = self.F.find_fns(regex)
+        if len(m) == 1:
+            return m[0]
+        hosts = []
+        for name in sorted(self.F.fns):
+            f = self.F.fns[name]
+            if not re.search(scope, name) or f['kind'] == 'Closure' or f.get('from_expansion') or name in self.F.fresh:
+                continue
+            g = self.graph(name)
+            x = g.x
+            if any(a.op in ops and x.home(a.nid) == g.root_inst for a in x.atoms_on(field)):
+                hosts.append(name)
+        if len(hosts) != 1:
+            raise CheckError('anchor %r matched %d functions and its characteristic step (%s on %s) is hosted by %s' % (regex, len(m), sorted(ops), field, hosts))
+        return hosts[0]
+
 
 class Test:
     __slots__ = ('sid', 'rel', 'a', 'b', 'true', 'false')
